@@ -16,7 +16,7 @@ struct Item {
 };
 struct Scenario {
     std::string name;
-    long B = 0x20000, Q = 10, C = 0x20000, post = 0, rp = 1, level = 0, late = 0;
+    long B = 0x20000, Q = 10, C = 0x20000, post = 0, rp = 1, level = 0, late = 0, fault = 0;
     std::vector<Item> items;
     std::string filename;
 };
@@ -40,6 +40,7 @@ static std::vector<Scenario> load_scenarios(const char * fn) {
                 else if (k == "POST") s.post = x;
                 else if (k == "RP") s.rp = x;
                 else if (k == "LEVEL") s.level = x;
+                else if (k == "FAULT") s.fault = x;     // random mode: the output file fails at a seeded step
                 else if (k == "LATE") s.late = x;        // level / restore points are configured only after open()
             }
         } else if (w[0] == "ITEM") {
@@ -184,6 +185,7 @@ static std::string project(Session & S) {
     o.raw("uf", ju.str()).raw("oq", jq.str());
     o.putb("uRun", f.m_uncompressedFileThreadRunning.raw()).putb("cRun", f.m_compressedFileThreadRunning.raw());
     o.putb("cfOpen", f.m_compressedFile.m_file.is_open());
+    o.putb("ioOk", !f.m_compressedFile.m_file.bad());
     o.put("objCount", (long) f.currentObjectCount.raw()).put("uncSize", (long) f.currentUncompressedFileSize);
     o.put("nw", S.nw);
     std::vector<long> usizes;
@@ -226,6 +228,12 @@ static void start_session(Session & S, const Scenario & sc) {
         }
         f.close();
     });
+}
+
+// I/O fault of the output file, injected between two scheduler steps (no thread is running): the fstream gets
+// badbit exactly as after a failed write (disk full, quota, medium removed); what it is given from now on is dropped
+static void inject_fault(Session & S) {
+    S.file->m_compressedFile.m_file.setstate(std::ios_base::badbit);
 }
 
 static bool drain(long budget) {
@@ -302,6 +310,7 @@ int main(int argc, char ** argv) {
                     note();
                     continue;
                 }
+                if (t == "fault") { inject_fault(S); note(); continue; }
                 int tid = t == "A" ? 0 : t == "U" ? 1 : 2;
                 if (tid < vsched::nthreads() && vsched::runnable(tid)) { vsched::step(tid); note(); }
             }
@@ -364,6 +373,13 @@ int main(int argc, char ** argv) {
                     if (got != s.expect) { st.mismatch(pi, si, sc->name + " " + join_words(s.act), s.expect, got); bad = true; }
                     continue;
                 }
+                if (t == "fault") {      // the environment: the output file fails now
+                    inject_fault(S);
+                    st.steps++;
+                    got = project(S);
+                    if (got != s.expect) { st.mismatch(pi, si, sc->name + " " + join_words(s.act), s.expect, got); bad = true; }
+                    continue;
+                }
                 int tid = t == "A" ? 0 : t == "U" ? 1 : 2;
                 if (!vsched::runnable(tid)) {
                     st.mismatch(pi, si, sc->name + " " + join_words(s.act), "\"thread can step\"", project(S));
@@ -400,9 +416,14 @@ int main(int argc, char ** argv) {
             long ok = 0, deadlock = 0, livelock = 0, steps = 0, maxHeld = 0, maxQ = 0, maxConts = 0;
             std::set<uint64_t> hashes;
             std::string firstBad;
+            long lastSteps = 2000, faults = 0;
             for (long r = 0; r < runs; r++) {
                 Session S;
                 start_session(S, sc);
+                // FAULT: the output file fails at a seeded step of this run (position drawn over the length of the last run)
+                long faultAt = sc.fault ? (long) (rng() % (unsigned long) (lastSteps + 1)) : -1;
+                long runSteps = 0;
+                bool faulted = false;
                 if (tf) fprintf(tf, "{\"e\":\"Reset\",\"scen\":\"%s\",\"pt\":%s}\n", sc.name.c_str(), project(S).c_str());
                 long budget = getenv("VERIF_BUDGET") ? atol(getenv("VERIF_BUDGET")) : 4000000;
                 std::string verdict;
@@ -421,8 +442,15 @@ int main(int argc, char ** argv) {
                     int t = run[rng() % run.size()];
                     long burst = 1 + (long) (rng() % ((rng() % 8 == 0) ? 5000 : 64));   // occasionally starve the others
                     for (long b = 0; b < burst && vsched::runnable(t); b++) {
+                        if (faultAt >= 0 && !faulted && runSteps >= faultAt && S.file->m_compressedFile.m_file.is_open()) {
+                            inject_fault(S);
+                            faulted = true;
+                            faults++;
+                            if (tf) fprintf(tf, "{\"e\":\"fault\",\"pt\":%s}\n", project(S).c_str());
+                        }
                         vsched::step(t);
                         steps++;
+                        runSteps++;
                         if (tf) fprintf(tf, "{\"e\":\"%s\",\"pt\":%s}\n", t == 0 ? "A" : t == 1 ? "U" : "C", project(S).c_str());
                         long held = 0;
                         for (auto & c : S.file->m_uncompressedFile.m_data) held += (long) c->uncompressedFileSize;
@@ -435,7 +463,8 @@ int main(int argc, char ** argv) {
                     }
                     if (budget <= 0) { verdict = "livelock"; break; }
                 }
-                if (verdict.empty()) { ok++; hashes.insert(fnv(kit::read_file(sc.filename))); }
+                lastSteps = runSteps;
+                if (verdict.empty()) { ok++; if (!faulted) hashes.insert(fnv(kit::read_file(sc.filename))); }
                 else {
                     if (verdict == "deadlock") deadlock++; else livelock++;
                     if (firstBad.empty()) {
@@ -450,7 +479,7 @@ int main(int argc, char ** argv) {
             o.puts("driver", "wsession_random").puts("scen", sc.name).put("runs", runs).put("ok", ok)
                 .put("deadlock", deadlock).put("livelock", livelock).put("steps", steps)
                 .put("maxHeld", maxHeld).put("maxQ", maxQ).put("maxConts", maxConts)
-                .put("distinctOutputs", (long) hashes.size());
+                .put("distinctOutputs", (long) hashes.size()).put("faults", faults);
             if (!hashes.empty()) o.puts("hash", std::to_string(*hashes.begin()));
             if (!firstBad.empty()) o.raw("first", firstBad);
             printf("RESULT %s\n", o.str().c_str());
